@@ -224,6 +224,55 @@ func checkC16(e *Env) {
 	})
 	values += histCalls
 
+	// the concurrent flavour of this monitor (C12 is the full treatment)
+	concCalls := e.concurrentSmoke(drv, "C16", e.smokePool("C16", "str"), e.pick(2, 12), e.pick(2000, 10000))
+
+	// histories: the name of a value before and after the same value was used as the language
+	// argument of every other function (and after other values were)
+	histVals := 0
+	parallel(8, e.Workers, func(h int) {
+		r := rng.New(e.Seed, "C16-hist-"+itoa(h))
+		var ops []plan.Op
+		add := func(op plan.Op) { op.I = len(ops); ops = append(ops, op) }
+		var strIdx []int
+		for k := 0; k < 60; k++ {
+			v := int64(k%14) - 2 // -2..11 repeatedly
+			switch k % 5 {
+			case 1:
+				v = 10 + int64(r.Intn(1000))
+			case 2:
+				v = -int64(r.Intn(1 << 20))
+			case 3:
+				v = int64(r.Uint64())
+			}
+			strIdx = append(strIdx, len(ops))
+			add(plan.Op{Fn: "str", L: v})
+			add(plan.Op{Fn: "enc", L: v, E: hx(r.Bytes(16))})
+			add(plan.Op{Fn: "new", L: v, N: 12, Src: &plan.Src{Data: hx(r.Bytes(16))}})
+			add(plan.Op{Fn: "new", L: v, N: 15})
+			add(plan.Op{Fn: "chkval", L: v, S: hxs("legal winner thank year wave sausage worth useful legal winner thank yellow")})
+			strIdx = append(strIdx, len(ops))
+			add(plan.Op{Fn: "str", L: v})
+		}
+		res, died := e.RunProc(drv, ops, nil, 0)
+		if died != "" {
+			e.Violate(&Violation{What: "the process died in a history of calls around Language.String(): " + oneLine(died, 300), Ops: ops[:min(len(res)+1, len(ops))]})
+			return
+		}
+		for _, i := range strIdx {
+			v := ops[i].L
+			if got := string(unhex(res[i].Out)); res[i].Panic != "" || got != nameOf(v) {
+				e.Violate(&Violation{What: fmt.Sprintf("Language(%d).String() = %q (panic: %v), expected %q, after the value had been used as the language of other calls in the same process", v, got, res[i].Panic != "", nameOf(v)),
+					Ops: ops[:i+1], Expected: map[string]string{"out_hex": hxs(nameOf(v))}, Observed: res[i], Detail: "the failing call is the last of ops"})
+				return
+			}
+		}
+		mu.Lock()
+		histVals += len(strIdx)
+		mu.Unlock()
+	})
+	values += int64(histVals)
+
 	names := map[string]bool{}
 	for _, n := range supported {
 		names[n] = true
@@ -232,15 +281,16 @@ func checkC16(e *Env) {
 		fatalInconclusive("C16: supported names observed: %v", supported)
 	}
 	e.WriteEvidence("exploration", map[string]any{
-		"evaluations":                 values,
-		"distinct_nontrivial":         dist.Len(),
-		"rule":                        "cases are int values of Language: the ten supported values (complete), every value in [-2^20, 2^20] (thorough [-2^24, 2^24]) through SHA-256 digests of 16384-value chunks computed in the child and compared with the digest of the expected names (a differing chunk is bisected to a single value), boundary values of every integer width, values congruent to supported ones modulo 2^8/2^16/2^32, seeded random int64 values and windows, log-uniform values of every bit length, and 16 uninterrupted histories of 2^23 (thorough 2^26) pseudo-random values each, formatted in one child and compared through a digest (a wrong name anywhere is located by bisecting the history length); non-trivial = every value (the expected string is fully determined); distinct = single values and chunks whose output was confirmed",
-		"samples":                     smp.List(),
-		"supported_names_observed":    supported,
-		"supported_subset_exhaustive": true,
-		"values_checked":              values,
-		"operations":                  stats.Ops,
-		"ranges_bisected":             rangesBisected,
-		"children":                    stats.Children,
+		"evaluations":                      values,
+		"distinct_nontrivial":              dist.Len(),
+		"calls_repeated_under_concurrency": concCalls,
+		"rule":                             "cases are int values of Language: the ten supported values (complete), every value in [-2^20, 2^20] (thorough [-2^24, 2^24]) through SHA-256 digests of 16384-value chunks computed in the child and compared with the digest of the expected names (a differing chunk is bisected to a single value), boundary values of every integer width, values congruent to supported ones modulo 2^8/2^16/2^32, seeded random int64 values and windows, log-uniform values of every bit length, and 16 uninterrupted histories of 2^23 (thorough 2^26) pseudo-random values each, formatted in one child and compared through a digest (a wrong name anywhere is located by bisecting the history length); non-trivial = every value (the expected string is fully determined); distinct = single values and chunks whose output was confirmed",
+		"samples":                          smp.List(),
+		"supported_names_observed":         supported,
+		"supported_subset_exhaustive":      true,
+		"values_checked":                   values,
+		"operations":                       stats.Ops,
+		"ranges_bisected":                  rangesBisected,
+		"children":                         stats.Children,
 	}, []string{"the declared identifiers of the ten Language constants (ChineseSimplified ... Portuguese) are the expected names"})
 }
